@@ -582,3 +582,50 @@ func HarnessWriteRead() {
 func zzLE64(b []byte, o int) uint64 {
 	return uint64(b[o]) | uint64(b[o+1])<<8 | uint64(b[o+2])<<16 | uint64(b[o+3])<<24 | uint64(b[o+4])<<32 | uint64(b[o+5])<<40 | uint64(b[o+6])<<48 | uint64(b[o+7])<<56
 }
+
+// HarnessCountOverflow (C09, C12): the 0xFFFF count convention. Write with Count/Copyall summarised
+// (no ids materialised) at the boundary lengths, then the real header readers on the written page,
+// and the real FreelistPageCount on a symbolic header.
+func HarnessCountOverflow() {
+	f, _ := zzNew(zz.Param("backend", 0))
+	ls := []uint64{0, 1, 0xFFFE, 0xFFFF, 0x10000, 0x20000}
+	l := ls[zz.Choose(len(ls))]
+	zz.StubReturn64("(*go.etcd.io/bbolt/internal/freelist.shared).Count", l)
+	zz.StubReturn64("(*go.etcd.io/bbolt/internal/freelist.shared).Copyall", 0)
+	buf := make([]byte, 16+8*(int(l)+2))
+	p := (*common.Page)(unsafe.Pointer(&buf[0]))
+	f.Write(p)
+	est := f.EstimatedWritePageSize()
+	zz.StubClear()
+	zz.Assert(p.IsFreelistPage(), "ffff/flag")
+	if l < 0xFFFF {
+		zz.Assert(uint64(p.Count()) == l, "ffff/count-field-holds-small-lengths")
+		zz.Assert(est >= 16+8*int(l), "ffff/estimate")
+	} else {
+		zz.Reach("overflowed")
+		zz.Assert(p.Count() == 0xFFFF, "ffff/count-field-saturates")
+		zz.Assert(zzLE64(buf, 16) == l, "ffff/first-element-holds-the-length")
+		zz.Assert(est >= 16+8*(int(l)+1), "ffff/estimate-includes-the-extra-element")
+	}
+	idx, cnt := p.FreelistPageCount()
+	zz.Assert(uint64(cnt) == l, "ffff/reader-recovers-the-length")
+	if l >= 0xFFFF {
+		zz.Assert(idx == 1, "ffff/reader-skips-the-length-element")
+	} else {
+		zz.Assert(idx == 0, "ffff/reader-starts-at-element-0")
+	}
+	// symbolic header: any count field, any first element
+	hb := zz.Bytes("hdr", 24)
+	zz.Assume(hb[8] == 0x10 && hb[9] == 0) // freelist page
+	hp := (*common.Page)(unsafe.Pointer(&hb[0]))
+	c16 := uint64(hb[10]) | uint64(hb[11])<<8
+	first := zzLE64(hb, 16)
+	zz.Assume(first < 1<<40)
+	i2, c2 := hp.FreelistPageCount()
+	if c16 == 0xFFFF {
+		zz.Assert(i2 == 1 && uint64(c2) == first, "ffff/symbolic-header-overflow-rule")
+	} else {
+		zz.Assert(i2 == 0 && uint64(c2) == c16, "ffff/symbolic-header-plain-rule")
+	}
+	zz.Reach("done")
+}
